@@ -2,7 +2,7 @@ from .base import *
 
 ID = 'C04'
 THEOREMS = ['C04_spellings', 'C04_divf_spellings', 'C04_sub_self', 'C04_sub_canon', 'C04_sub_blade',
-            'C04_lift_range', 'C04_sub_total', 'C04_add_sub', 'C04_divf']
+            'C04_lift_range', 'C04_sub_total', 'C04_add_sub', 'C04_divf', 'C04_total_any', 'C04_direction']
 OWNED = {'ASub', 'ADivA', 'ADivF'}
 RULE = ('blade differences enumerated exhaustively over [-64,64] (quick) / [-4096,4096] (thorough) at several base blades, crossed with six remainder-gap classes '
         '(equal, gap < 1e-15, gap = 1e-15 +- ulps, gap < 1e-10, arbitrary, borrow); all 8 spellings of angle - angle and angle / angle; (a+b)-b; a-a; '
@@ -70,5 +70,5 @@ def generate(rng, tier):
 LEVEL_TEXT = ('Kernel-checked theorems about the model of Angle subtraction for ALL canonical operands: 8 spellings are one function, a-a is exactly the zero angle, '
               'the result is always canonical with a non-negative blade (never a negative angle), its blade is the lifted blade difference minus a borrow plus at most one carry '
               '(negative differences land in [0,3], congruent mod 4), and when the minuend has more blades the total is the difference of totals within 1e-10 + 3 ulp(4). '
-              '(a+b)-b returns a within 2e-10 + 5 ulp(4) when a carries at least one blade (C04_add_sub). C04_divf: a / k (k > 0) is canonical and its total is theta(a)/k within 1e-10 + 2^-52 + 2^-69 + 2^-49 theta(a)/k. The value in the wrap-around case of subtraction is decided by predicate search only (S3).')
-LEVEL_NOTE = ('Trusted: Coq kernel + vm_compute; 4 classical/real-number axioms of the standard library; the hand-written model (validated bit-for-bit on the cases of each run); harness, emitter, predicates. No libm involved.')
+              '(a+b)-b returns a within 2e-10 + 5 ulp(4) when a carries at least one blade (C04_add_sub). C04_divf: a / k (k > 0) is canonical and its total is theta(a)/k within 1e-10 + 2^-52 + 2^-69 + 2^-49 theta(a)/k. C04_total_any removes the blade-order premise: for ANY canonical pair the result denotes theta a - theta b plus a non-negative number of lifted whole turns within 1e-10 + 3*2^-52, and C04_direction states it with the REAL pi (within 1e-10 + 3*2^-52 + 2e-16 of dirR a - dirR b + 2 pi j).')
+LEVEL_NOTE = ('Trusted: Coq kernel + vm_compute; 4 classical/real-number axioms of the standard library; plus the primitive-integer axioms (PrimInt63.*, Uint63.*_spec) that the Interval tactic uses for the two bounds on the real pi in PiBounds.v (value theorems only); the hand-written model (validated bit-for-bit on the cases of each run); harness, emitter, predicates. No libm involved.')
